@@ -323,11 +323,13 @@ class JSObject:
 
     def define_getter(self, key: str, getter: Any) -> None:
         """Define a getter for a property."""
+        self._properties.pop(key, None)  # an accessor replaces a data property of the same name
         self._getters[key] = getter
         self._order[key] = None
 
     def define_setter(self, key: str, setter: Any) -> None:
         """Define a setter for a property."""
+        self._properties.pop(key, None)
         self._setters[key] = setter
         self._order[key] = None
 
